@@ -28,7 +28,10 @@ def configs(tier, seed):
            dict(name="screen r=1 a=2 +1 names symbolic", h="screen", rows=1, arity=2, extra=1, cycles=2, treat="fixed-doses", samples=C, plates="one"),
            dict(name="screen r=2 a=2 +0 names symbolic", h="screen", rows=2, arity=2, extra=0, cycles=1, treat="fixed-doses", samples=C, plates="one"),
            dict(name="space r=2 a=1", h="space", rows=2, arity=1, treat=T, samples=T, plates="one"),
-           dict(name="screen after Plate.merge", h="merged", rows=6)]
+           dict(name="screen after Plate.merge", h="merged", rows=6),
+           # every observation independently finite / NaN / +inf / -inf / -0.0, observed or not (three plates)
+           dict(name="screen r=3 a=1 observation values of every float class", h="screen", rows=3, arity=1, extra=0, cycles=2, treat=C, samples=C,
+                plates="each", special=True)]
     if not q:
         out += [dict(name="screen r=3 a=1 +1 treatments symbolic", h="screen", rows=3, arity=1, extra=1, cycles=3, treat=T, samples=C, plates="one"),
                 dict(name="screen r=2 a=1 +2 treatments symbolic", h="screen", rows=2, arity=1, extra=2, cycles=3, treat=T, samples=C, plates="one"),
@@ -53,6 +56,9 @@ def fixtures(cfg):
             vals["nm%d_%d" % (r, c)] = names[k % 6]
             vals["ds%d_%d" % (r, c)] = doses[k % 6]
             k += 1
+    if cfg.get("special"):
+        return [dict(vals, **{"ob0#cls": 1, "ob1#cls": 4, "mk0": False, "mk1": True, "mk2": False}),
+                dict(vals, **{"ob0#cls": 2, "ob1#cls": 1, "ob2#cls": 3, "mk0": True, "mk1": False, "mk2": False})]
     return [vals]
 
 
@@ -77,7 +83,9 @@ def _build(ctx, data, cfg):
         sn[-1] = "zz\u00e9"
     else:
         sn = [ctx.str("sn%d" % r) for r in range(R + X)]
-    if cfg["plates"] == "one":
+    if cfg["plates"] == "each":
+        pn = ["p%d" % (r % 3) for r in range(R + X)]
+    elif cfg["plates"] == "one":
         p0 = ctx.str("pn0") if cfg["treat"] != "concrete" or cfg["samples"] != "concrete" else "p"
         pn = [p0] * (R + X)
     else:
@@ -87,7 +95,7 @@ def _build(ctx, data, cfg):
         big = data.Screen(treatment_names=np.array(tn), treatment_doses=np.array(td, dtype=float),
                           sample_names=np.array(sn), plate_names=np.array(pn), control_treatment_name=ctrl)
         kw = dict(treatment_mapping=big.treatment_mapping, sample_mapping=big.sample_mapping)
-    obs = [ctx.real_bits("ob%d" % r) for r in range(R)]
+    obs = [(ctx.float_bits if cfg.get("special") else ctx.real_bits)("ob%d" % r) for r in range(R)]
     # per-plate mask: rows of one plate share the flag of the first row of that plate
     flags = [ctx.is_true(ctx.bool("mk%d" % r)) for r in range(R)]
     mask = []
